@@ -832,7 +832,7 @@ def impl(c):
             r2 = _show_blocks(common.twice_cidrs(common.make_glob(a[1])))
             return r1 if r1 == r2 else r1 + ' BUT IPGlob(...).cidrs() = ' + r2
         if a[0] == 'uniq':
-            ips = list(_itertools.islice(iter_unique_ips(*[_obj(it) for it in a[1]]), _CAP + 1))   # bounded
+            ips = list(_itertools.islice(common.paired(lambda: iter_unique_ips(*[_obj(it) for it in a[1]])), _CAP + 1))   # bounded
             return plist(['%d:%d' % (ip.version, ip.value) for ip in ips[:_CAP]] + ['...'] * (len(ips) > _CAP))
     except Exception as e:
         return '!' + errname(e)
